@@ -382,9 +382,51 @@ if $d is None:
             "re-reads data received earlier is rejected (or an undefined input accepted)")
 
 
+def r_deps(c):
+    """the partitioner finds a stored array among the dependencies of the data that
+    uses it: the dependency mappers must include the node itself (shared with C20)"""
+    from pta.rules.c20 import r_deps_self
+    before = len(c.obs)
+    r_deps_self(c)
+    for o in c.obs[before:]:
+        o.rule = "R09-PLACEMENT"
+
+
+def r_name_table(c):
+    """generated names and user-given output names are different name spaces: the
+    table of generated array names starts empty (the repository says so itself:
+    "Don't be tempted to put outputs in array_names")"""
+    m = c.model
+    f = m.func(D + "partition.find_distributed_partition")
+    gens = find(f, """
+def $gen($a):
+    $n = $tbl.get($a)
+    if $n is not None:
+        return $n
+    else:
+        $n = $fresh()
+        $tbl[$a] = $n
+        return $n
+""")
+    if len(gens) != 1:
+        raise AnalysisError("anchor vanished: memoising array-name generator")
+    tbl = gens[0]["$tbl"]
+    inits = [a for a in ast.walk(f) if isinstance(a, (ast.Assign, ast.AnnAssign))
+             and ast.unparse(a.targets[0] if isinstance(a, ast.Assign) else a.target) == tbl]
+    c.check(len(inits) == 1 and inits[0].value is not None
+            and ast.unparse(inits[0].value) in ("{}", "dict()"), "R09-NAMES",
+            "distributed.partition.find_distributed_partition",
+            "generated-name-table-starts-empty",
+            m.loc(m.module_of(f), inits[0] if inits else f),
+            f"the table of generated array names `{tbl}` is pre-filled "
+            f"(`{m.frag(inits[0].value, 50) if inits and inits[0].value is not None else None}`): "
+            "a received or stored array that is also an overall output then takes the "
+            "output's name, and a part gets an output that is a placeholder of itself")
+
+
 SPEC = Spec(
     prop="C09",
-    rules=[r_collectives, r_nocomm, r_tags, r_names, r_forwarded, r_placement],
+    rules=[r_collectives, r_nocomm, r_tags, r_names, r_forwarded, r_placement, r_deps, r_name_table],
     floors={"R09-COLLECTIVES": 8, "R09-NOCOMM": 7, "R09-TAGS": 5, "R09-NAMES": 6,
             "R09-PLACEMENT": 4},
     explanation=(
